@@ -191,6 +191,12 @@ Inductive page_result :=
 
 Definition last_opt {A} (l : list A) : option A := match rev l with [] => None | x :: _ => Some x end.
 
+(* sqlSelectTip, as Store.tipB but with the inner MAX(height) evaluated once (convertible to tipB:
+   MerklePageProofs.tip_row_is_tipB is proved by reflexivity) - the extracted tipB recomputes it for every row, which
+   makes pages on a 2000-block store needlessly quadratic *)
+Definition tip_row (s : store) : option row :=
+  let m := maxLh s in find (fun r => st_eqb (st r) Longest && (height r =? m)) (rev s).
+
 (* HeaderRepository.GetMerkleRoots: rows, then the tip (sqlSelectTip = Store.tipB), then the end-of-data rule:
    lastEvaluatedKey stays "" iff the page is empty or its last root equals the tip's root;
    totalElements = tip height *)
@@ -200,7 +206,7 @@ Definition page (hlt : N -> N -> bool) (s : store) (batch : nat) (key : option N
   | KConflict => PErrConflict
   | KHeight h =>
     let rows := merkle_from_height s h batch in
-    match tipB s with
+    match tip_row s with
     | None => PErrNoTip
     | Some t =>
       POk (map rh rows)
